@@ -736,7 +736,8 @@ var (
 	witMute = []Op{{Op: "end"}, {Op: "set", Set: setV1}, {Op: "adv"}, itr("a1"), {Op: "set", Set: setLow}, {Op: "adv"}, itr("a1"), itr("a2")}
 	// both report block 2 because of the genesis config; config 1 (activation 2) is accepted; at block
 	// 3 a1 reports again although its report 2 already counts for config 1
-	witDup = []Op{{Op: "end"}, {Op: "set", Set: setV1}, {Op: "adv"}, {Op: "adv"}, itr("a1"), itr("a2"), {Op: "end"}, {Op: "adv"}, itr("a1")}
+	witDup1 = []Op{{Op: "end"}, {Op: "set", Set: withAct(1, setV1)[0]}, {Op: "adv"}, itr("a1"), itr("a2"), {Op: "end"}, {Op: "adv"}, itr("a1")}
+	witDup  = []Op{{Op: "end"}, {Op: "set", Set: setV1}, {Op: "adv"}, {Op: "adv"}, itr("a1"), itr("a2"), {Op: "end"}, {Op: "adv"}, itr("a1")}
 )
 
 func plansFor(thorough bool) []Plan {
@@ -749,8 +750,8 @@ func plansFor(thorough bool) []Plan {
 			// (quick tier: activation 1 and a main chain of 2 blocks instead of 2 and 3)
 			{Name: "one", Runners: three, Sets: withAct(1, setV1, setGap, setT0, setTH, setDup, setE), Budgets: all, MaxMC: 2, MaxSets: 1, MaxH: 30, Delta: 1, Live: two, MaxBeh: 48},
 			// partial sends (budget 0 = the node is unreachable), G4 under fairness
-			{Name: "base", Runners: two, Sets: []Cfg{setV1}, Budgets: []int{0, BudgetAll}, MaxMC: 3, MaxSets: 1, MaxH: 30, Delta: 1, Live: two, LastView: true, MaxBeh: 40, Liveness: true,
-				Witness: map[string][]Op{"G3_DuplicateReport": witDup}},
+			{Name: "base", Runners: two, Sets: withAct(1, setV1), Budgets: []int{0, BudgetAll}, MaxMC: 2, MaxSets: 1, MaxH: 30, Delta: 1, Live: two, LastView: true, MaxBeh: 40, Liveness: true,
+				Witness: map[string][]Op{"G3_DuplicateReport": witDup1}},
 			// the reply to an accepted broadcast is lost, the keyper restarts
 			{Name: "crash", Runners: two, Sets: withAct(1, setV1), Budgets: all, Crashes: true, MaxMC: 2, MaxSets: 1, MaxH: 30, Delta: 1, Live: two, MaxBeh: 40},
 			// two keyper sets, the second one activating before the first (GOV1)
@@ -853,8 +854,11 @@ func Check(c *core.Ctx) int {
 	var observations []Observation
 	plans := plansFor(c.Thorough())
 	type genRes struct {
-		g   *Gen
-		err error
+		g    *Gen
+		out  *Outcome
+		wit  map[string][]int
+		err  error
+		what string
 	}
 	gens := make([]chan genRes, len(plans))
 	per := 8
@@ -866,12 +870,29 @@ func Check(c *core.Ctx) int {
 	for i, p := range plans {
 		gens[i] = make(chan genRes, 1)
 		go func(i int, p Plan) {
-			if c.Thorough() {
-				seq.Lock()
-				defer seq.Unlock()
+			var r genRes
+			func() {
+				if c.Thorough() {
+					seq.Lock()
+					defer seq.Unlock()
+				}
+				r.g, r.err = Generate(c, p, per)
+			}()
+			if r.err == nil {
+				r.wit = map[string][]int{}
+				for name, ops := range p.Witness {
+					if h := witnessHistory(r.g.Alphabet, ops); h != nil {
+						r.wit[name] = h
+					} else {
+						r.what = fmt.Sprintf("the fixed witness %s of plan %s is not in the alphabet TLC printed", name, p.Name)
+					}
+				}
+				if r.what == "" {
+					// replay and trace validation of this plan overlap with the model checking of the others
+					r.out, r.err = ReplayAndValidate(c, r.g, r.wit)
+				}
 			}
-			g, err := Generate(c, p, per)
-			gens[i] <- genRes{g, err}
+			gens[i] <- r
 		}(i, p)
 	}
 	for i, p := range plans {
@@ -880,6 +901,10 @@ func Check(c *core.Ctx) int {
 		g, err := gr.g, gr.err
 		if err != nil {
 			fmt.Println("INCONCLUSIVE:", err)
+			return core.ExitInconclusive
+		}
+		if gr.what != "" {
+			fmt.Println("INCONCLUSIVE:", gr.what)
 			return core.ExitInconclusive
 		}
 		c.Logf("plan %s: %d distinct states (%d generated, depth %d, %.1fs), %d behaviours printed, %d spec-level observation histories, specviol=%q; liveness: %d states %.1fs viol=%q",
@@ -893,20 +918,7 @@ func Check(c *core.Ctx) int {
 				Note: "TLC reports a G4 temporal property violated on the composed model under fairness: " + g.LiveViol})
 			fmt.Printf("OBSERVATION gov: G4 is violated on the composed MODEL of plan %s (%s); no history to replay\n", p.Name, g.LiveViol)
 		}
-		wit := map[string][]int{}
-		for name, ops := range p.Witness {
-			if h := witnessHistory(g.Alphabet, ops); h != nil {
-				wit[name] = h
-			} else {
-				fmt.Printf("INCONCLUSIVE: the fixed witness %s of plan %s is not in the alphabet TLC printed\n", name, p.Name)
-				return core.ExitInconclusive
-			}
-		}
-		out, err := ReplayAndValidate(c, g, wit)
-		if err != nil {
-			fmt.Println("INCONCLUSIVE:", err)
-			return core.ExitInconclusive
-		}
+		wit, out := gr.wit, gr.out
 		outs = append(outs, out)
 		c.Logf("plan %s: %d runs on the real code (%d with restarts), %d iterations (%d distinct), %d votes and %d reports scheduled, %d configs accepted, %d started; %d keyper lines + %d application lines validated; %d monitor results, %d drift",
 			p.Name, out.Runs, out.Restarts, out.Iters, out.Distinct, out.Votes, out.Seens, out.Accepted, out.Started, out.Lines, out.AppLines, len(out.Findings), len(out.Drift))
@@ -1090,6 +1102,8 @@ func Replay(c *core.Ctx) int {
 	}
 	if len(seen) == 0 {
 		fmt.Printf("not reproduced: no monitor failure and no observation on history %v (%d lines validated)\n", rf.Finding.Hist, out.Lines)
+	} else if !seen[rf.Finding.Kind+rf.Finding.Monitor] {
+		fmt.Printf("not reproduced: %s (%s) does not show on history %v (%d lines validated)\n", rf.Finding.Monitor, rf.Finding.Kind, rf.Finding.Hist, out.Lines)
 	}
 	if code == core.ExitViolation {
 		fmt.Printf("VIOLATION property=%s replay=%s\n", rf.Prop, c.Replay)
